@@ -345,7 +345,7 @@ def one(rec, hub, seed, tier, i, tmpdir):
     fd = hub.fd
     rng = case_nprng(seed, "c18.system", 0, i)
     which = i % 3
-    d = SY.gen_def(rng, hostile_names=(tier == "thorough"), time_letter_variants=0.0 if which == 0 and i % 2 == 0 else 0.35, vary_items=True)
+    d = SY.gen_def(rng, hostile_names=(tier == "thorough"), time_letter_variants=0.0 if which == 0 and i % 2 == 0 else 0.35, vary_items=True, big_system=0.03)
     # distinct flow names (the statement's domain): overrides for parallel edges are generated by gen_def
     if which == 0:
         mfa = SY.build_system(fd, d)
